@@ -131,3 +131,37 @@ def check_fused(model, R, P_):
              'BCE-with-logits must be BCE of the sigmoid kernel (guard epsilon -> 0, away from the clamp)', f.loc)
     except (Unsupported, ZeroDivisionError, Incomplete) as u:
         R.incomplete_at(P_ + '.EXPLOG', K + 'bce_with_logits_loss_forward', str(u))
+
+
+def check_deriv_x(model, R, P_):
+    """C02: backward kernels of the log-based losses equal grad * d(forward definition)/d(prediction) as terms (guard epsilon -> 0);
+    the piecewise relu shift of BCE-with-logits is evaluated in both of its cases (x >= 0: shift 0; x < 0: shift -x)"""
+    R.rule(P_ + '.DERIV-X', 'backward kernels of the log-based losses equal grad * d(forward)/d(prediction) as terms under exp / log algebra (guard epsilon -> 0; both cases of the relu shift)', floor=3)
+    x, y, g = A('y_pred'), A('y_true'), A('grad')
+    try:
+        xl = XL()
+        f, fw = term(model, xl, 'bce_loss_forward', {'y_pred': x, 'y_true': y}, atoms={'epsilon': 0})
+        fb, bw = term(model, xl, 'bce_loss_backward', {'grad': g, 'y_pred': x, 'y_true': y}, atoms={'epsilon': 0})
+        want = g * xl.diff(fw, 'y_pred')
+        R.ob(P_ + '.DERIV-X', fb.qualname, 'd bce / d y_pred: %s' % xl.norm(bw).canon()[:140], xl.equal(bw, want), 'expected grad * d(-(y log p + (1-y) log(1-p)))/dp = %s' % xl.norm(want).canon()[:160], fb.loc)
+    except (Unsupported, ZeroDivisionError, Incomplete) as u:
+        R.incomplete_at(P_ + '.DERIV-X', K + 'bce_loss_backward', str(u))
+    fb = model.func(K + 'bce_with_logits_loss_backward')
+    for case in ('x >= 0', 'x < 0'):
+        try:
+            xl = XL()
+            ch, cm = xl.hooks()
+
+            def hook(pe, name, e, args, kw, env, func, depth, case=case):
+                if name == K + 'relu_forward' and len(args) == 1:
+                    return P.const(0) if case == 'x >= 0' else args[0]          # relu(-x)
+                return ch(pe, name, e, args, kw, env, func, depth)
+            outs = PE(model, atoms={'epsilon': 0}, call_hook=hook, compare_hook=cm, atoms_not_none=True).paths(fb, {'grad': g, 'y_pred': x, 'y_true': y})
+            if len(outs) != 1 or outs[0].kind != 'return' or not isinstance(outs[0].value, P):
+                raise Incomplete('case %s does not evaluate to one term: %s' % (case, [(o.kind, o.conds[-2:]) for o in outs][:3]))
+            bw = outs[0].value
+            want = g * xl.diff((1 - y) * x + xl.log(1 + xl.exp(-x)), 'y_pred')
+            R.ob(P_ + '.DERIV-X', fb.qualname, '[%s] d bce_with_logits / d y_pred: %s' % (case, xl.norm(bw).canon()[:120]), xl.equal(bw, want),
+                 'expected grad * d((1-y) x + log(1 + exp(-x)))/dx = %s' % xl.norm(want).canon()[:160], fb.loc)
+        except (Unsupported, ZeroDivisionError, Incomplete) as u:
+            R.incomplete_at(P_ + '.DERIV-X', fb.qualname, '%s: %s' % (case, u))
